@@ -87,7 +87,7 @@ def rules_param(fn):
     return None
 
 
-ITER_OK = {"into_iter", "iter", "filter", "cloned", "copied", "collect", "to_vec"}
+ITER_OK = {"into_iter", "iter", "filter", "cloned", "copied", "collect", "to_vec", "into", "to_owned"}
 TRUNCATING = {"take", "skip", "find", "first", "last", "nth", "step_by", "take_while", "skip_while", "find_map", "next", "min_by", "max_by", "position", "dedup", "unique", "zip", "rev", "truncate", "pop", "split_first", "split_last"}
 
 
@@ -136,6 +136,8 @@ def as_filter(m):
 
 def loop_selection(stmts, rp):
     """`let mut v = vec![]; for r in <rules> { if P { v.push(r.clone()) } } v` -> the closure `|r| P` (None when the body is not of that form)."""
+    if len(stmts) > 3 and all(s_["k"] == "let" for s_ in stmts[:-3]):
+        stmts = stmts[-3:]  # leading locals (the sets of outputs of the children) are not part of the loop form
     if len(stmts) != 3 or stmts[0]["k"] != "let" or stmts[0]["pat"]["k"] != "ident" or stmts[1]["k"] != "expr" or stmts[1]["e"]["k"] != "for":
         return None
     v = stmts[0]["pat"]["name"]
@@ -191,7 +193,7 @@ def g1(rep, src):
             # the returned expression: tail of the body (named locals such as `let left_property = left.attributes().output();` are read through)
             from .canon import canon_view
 
-            fc = canon_view(f, src, helpers=False, multi_use=True, keep_lets=tuple(setof_names(f)) if who == "Eliminator" else ())
+            fc = canon_view(f, src, multi_use=True, keep_lets=tuple(setof_names(f)) if who == "Eliminator" else ())  # private helpers such as `reachable_properties(&child)` are read through
             stmts = fc.body["stmts"]
             tail = stmts[-1]["e"] if stmts and stmts[-1]["k"] == "expr" and not stmts[-1].get("semi") else None
             if tail is None:
@@ -203,6 +205,8 @@ def g1(rep, src):
                 ms, names = [], []
                 filters = [{"m": "filter", "args": [loop]}]
             else:
+                if tail["k"] == "call" and (path_of(tail["f"]) or "") in ("Vec::from", "Vec::from_iter", "From::from", "Into::into") and len(tail["args"]) == 1 and path_of(strip(tail["args"][0])) == rp:
+                    tail = tail["args"][0]  # `Vec::from(rules)` is `rules.to_vec()`: all the rules, in order
                 ms, root = chain_methods(tail)
                 names = [m["m"] for m in ms]
                 if path_of(strip(root)) != rp:
@@ -210,6 +214,15 @@ def g1(rep, src):
                     continue
                 # `filter_map(|r| P.then(|| r.clone()))` / `.then_some(r.clone())` / `if P { Some(r.clone()) } else { None }`  ==  filter(|r| P).cloned()
                 ms = [as_filter(m) or m for m in ms]
+                # `.map(Clone::clone)` / `.map(|r| r.clone())` is `.cloned()`
+                def _is_clone_map(m):
+                    if m["m"] != "map" or len(m["args"]) != 1:
+                        return False
+                    a_ = m["args"][0]
+                    if a_["k"] == "path" and a_["segs"][-1] in ("clone", "to_owned"):
+                        return True
+                    return a_["k"] == "closure" and len(a_["params"]) == 1 and bool(pat_binds(a_["params"][0])) and _same_rule(a_["body"], pat_binds(a_["params"][0])[0])
+                ms = [dict(m, m="cloned", args=[]) if _is_clone_map(m) else m for m in ms]
                 names = [m["m"] for m in ms]
             bad = [n for n in names if n in TRUNCATING or n not in ITER_OK]
             if bad:
@@ -241,7 +254,7 @@ def g1(rep, src):
                 for s in stmts[:-1]:
                     if s["k"] == "let" and s.get("init") is not None:
                         src_kids = [k for k in kids if k in [x["segs"][0] for x in walk(s["init"]) if x["k"] == "path" and len(x["segs"]) == 1]]
-                        maps_output = any(x["k"] == "mcall" and x["m"] == "output" for x in walk(s["init"]))
+                        maps_output = any((x["k"] == "mcall" and x["m"] == "output") or (x["k"] == "path" and len(x["segs"]) >= 2 and x["segs"][-1] == "output") for x in walk(s["init"]))
                         for b in pat_binds(s["pat"]):
                             setof[b] = (src_kids, maps_output)
             for a in atoms:
@@ -353,8 +366,11 @@ class Origins:
             return ("rules", e["m"])
         if k == "mcall" and e["m"] in ("attributes", "relation", "inputs"):
             return ("acc." + e["m"],)
-        if k == "block" and len(e["stmts"]) == 1 and e["stmts"][0]["k"] == "expr":
-            return self.val(e["stmts"][0]["e"], env)
+        if k == "block" and e["stmts"] and e["stmts"][-1]["k"] == "expr" and all(s_["k"] == "let" and s_.get("init") is not None for s_ in e["stmts"][:-1]):
+            env = dict(env)
+            for s_ in e["stmts"][:-1]:  # `{ let x = <value>; <tail> }`
+                self.bind(s_["pat"], self.val(s_["init"], env), env)
+            return self.val(e["stmts"][-1]["e"], env)
         raise Undecided("value %s" % show(e, 80))
 
     def elem(self, e, env):
@@ -387,8 +403,13 @@ class Origins:
                 return ("rule",)
             self.combinators.append(m)
             raise Undecided("combinator .%s()" % m)
-        if e["k"] == "block" and len(e["stmts"]) == 1 and e["stmts"][0]["k"] == "expr":
-            return self.elem(e["stmts"][0]["e"], env)
+        if e["k"] == "block" and e["stmts"] and e["stmts"][-1]["k"] == "expr" and all(s_["k"] == "let" and s_.get("init") is not None for s_ in e["stmts"][:-1]):
+            env = dict(env)
+            for s_ in e["stmts"][:-1]:  # `{ let selected = self.set(..); selected.into_iter().map(..) }`
+                self.bind(s_["pat"], self.val(s_["init"], env), env)
+            return self.elem(e["stmts"][-1]["e"], env)
+        if e["k"] == "path" and isinstance(env.get(e["p"]), tuple) and env[e["p"]][:1] == ("rules",):
+            return ("rule",)  # a local holding the rules kept by self.<node>(..)
         raise Undecided("iterator %s" % show(e0, 80))
 
 
@@ -424,7 +445,14 @@ def g2(rep, src):
         floor=4,
         necessary="zipping or truncating the candidate lists silently loses consistent derivations (possibly the best-scoring or the only one); swapping the attached children yields an ill-typed derivation",
     )
-    f = visitor_fn(src, "SelectRewritingRuleVisitor")
+    from .canon import inline_local_closures
+
+    from .canon import canon_view as _cv2
+
+    f = inline_local_closures(visitor_fn(src, "SelectRewritingRuleVisitor"))
+    if not [m for m in find(f.body, "match") if m["e"]["k"] == "mcall" and m["e"]["m"] == "relation"]:
+        # `let relation = acceptor.relation(); match relation { .. }` and a free helper `with_selected_rule(relation, rule, inputs)`: read through
+        f = inline_local_closures(_cv2(visitor_fn(src, "SelectRewritingRuleVisitor"), src, multi_use=True))  # `let with_rule = |rule, inputs| Arc::new(RelationWithRewritingRule::new(..));` read through
     ps = [p["pat"]["name"] for p in f.params if not p.get("self")]
     acc, deps = ps[0], ps[1]
     arms = dispatch_arms(f)
@@ -497,8 +525,15 @@ def g4(rep, src):
         necessary="swapping the two children applies a rule's left requirement to the right child: the derivation applied is not the one selected",
     )
     # (the SetRewritingRulesVisitor wrapper is not included: RewritingRulesSetter ignores its child arguments)
+    from .canon import inline_local_closures
+
     for bound in ("MapRewritingRulesVisitor", "RewriteVisitor"):
-        f = visitor_fn(src, bound)
+        f = inline_local_closures(visitor_fn(src, bound))
+        if not [m for m in find(f.body, "match") if m["e"]["k"] == "mcall" and m["e"]["m"] == "relation"]:
+            from .canon import canon_view as _cv3
+
+            f = inline_local_closures(_cv3(visitor_fn(src, bound), src, multi_use=True))
+        # `let visited_input = |k| dependencies.get(acceptor.inputs()[k].deref()).clone();` read through
         ps = [p["pat"]["name"] for p in f.params if not p.get("self")]
         acc, deps = ps[0], ps[1]
         arms = dispatch_arms(f)
@@ -532,34 +567,56 @@ def g3(rep, src):
         floor=2,
         necessary="min_by / first() / a comparison on the wrong tuple component returns a derivation that is not best-scoring; dropping the error arm reports success or panics when no derivation exists",
     )
+    from .canon import canon_view
+
     for name in ("rewrite_with_differential_privacy", "rewrite_as_privacy_unit_preserving"):
-        f = src.one_fn(name=name, file="rewriting/mod.rs")
+        f = canon_view(src.one_fn(name=name, file="rewriting/mod.rs"), src)  # named intermediate iterators and a private `highest_score(iter)` helper are read through
         stmts = f.body["stmts"]
         tail = stmts[-1]["e"] if stmts and stmts[-1]["k"] == "expr" and not stmts[-1].get("semi") else None
         if tail is None:
             rep.undecidable("G3", name, "no tail expression", f.where())
             continue
-        ms, root = chain_methods(tail)
-        names = [m["m"] for m in reversed(ms)]
-        allowed = {"select_rewriting_rules", "into_iter", "iter", "filter_map", "filter", "map", "max_by", "min_by", "ok_or_else", "ok_or", "collect"}
-        bad = [n for n in names if n not in allowed]
-        sample = {"entry": name, "chain": names}
-        if bad:
-            rep.violation("G3", name, "combinator(s) %s between the candidate list and the selection" % bad, f.where())
-        sel = [m for m in ms if m["m"] in ("max_by", "min_by")]
-        if len(sel) != 1:
+        sel = [m for m in find(f.body, "mcall") if m["m"] in ("max_by", "min_by", "max_by_key", "min_by_key", "max", "min", "first", "last", "next", "nth", "find")]
+        sample = {"entry": name}
+        if len(sel) != 1 or sel[0]["m"] not in ("max_by", "min_by"):
             rep.violation("G3", name, "expected one max_by/min_by selection, found %s" % [m["m"] for m in sel], f.where())
             rep.instance("G3", name, sample)
             continue
         s = sel[0]
+        # the chain from the candidate list to the selection (through named locals)
+        chain, r = [], s["recv"]
+        for _ in range(40):
+            if r["k"] == "mcall":
+                chain.append(r)
+                r = r["recv"]
+            elif r["k"] == "path" and len(r["segs"]) == 1:
+                lets = [l for l in find(f.body, "let") if l["pat"]["k"] == "ident" and l["pat"]["name"] == r["segs"][0] and l.get("init") is not None]
+                if len(lets) != 1:
+                    break
+                r = lets[0]["init"]
+            else:
+                break
+        names = [m["m"] for m in reversed(chain)]
+        sample["chain"] = names + [s["m"]]
+        allowed = {"set_rewriting_rules", "map_rewriting_rules", "select_rewriting_rules", "into_iter", "iter", "filter_map", "filter", "map", "collect"}
+        bad = [n for n in names if n not in allowed]
+        if "select_rewriting_rules" not in names:
+            rep.undecidable("G3", name, "the selection is not made over the result of select_rewriting_rules(..): %s" % names, f.where())
+            continue
+        if bad:
+            rep.violation("G3", name, "combinator(s) %s between the candidate list and the selection" % bad, f.where())
         cl = s["args"][0]
-        # which tuple component carries the score: position of `.accept(Score)` in the filter_map closure's tuple
+        # which tuple component carries the score: position of `.accept(Score)` in the tuple built by the filter_map / map closure
         score_pos = None
-        for m in ms:
-            if m["m"] == "filter_map":
-                for t in find(m["args"][0], "tuple"):
+        for m in chain:
+            if m["m"] in ("filter_map", "map") and m["args"] and m["args"][0]["k"] == "closure":
+                clo = m["args"][0]
+                loc = {l["pat"]["name"]: l["init"] for l in find(clo["body"], "let") if l["pat"]["k"] == "ident" and l.get("init") is not None}
+                for t in find(clo["body"], "tuple"):
                     for i, x in enumerate(t["elems"]):
-                        if x["k"] == "mcall" and x["m"] == "accept" and any(path_of(a) == "Score" for a in x["args"]):
+                        if x["k"] == "path" and len(x["segs"]) == 1 and x["segs"][0] in loc:
+                            x = loc[x["segs"][0]]
+                        if x["k"] == "mcall" and x["m"] == "accept" and any(path_of(a_) == "Score" for a_ in x["args"]):
                             score_pos = i
         if cl["k"] != "closure" or len(cl["params"]) != 2 or score_pos is None:
             rep.undecidable("G3", name, "cannot read the comparison closure / the score position", f.where())
@@ -588,8 +645,9 @@ def g3(rep, src):
             rep.violation("G3", name, "the selection takes the MINIMUM score (%s with %s.%s(%s))" % (s["m"], a, cmpc[0]["m"], b), f.where())
         if any(c["m"] == "reverse" for c in find(cl["body"], "mcall")):
             rep.violation("G3", name, "comparison reversed", f.where())
-        last = ms[0]
-        if last["m"] not in ("ok_or_else", "ok_or") or "unreachable_property" not in show(last, 0):
+        # the empty case: the value returned when the selection yields None is Err(Error::unreachable_property(..))
+        holds_sel = any(x_ is s for x_ in walk(tail))
+        if not holds_sel or "unreachable_property" not in show(tail, 0) or not any((x_["k"] == "mcall" and x_["m"] in ("ok_or_else", "ok_or")) or (x_["k"] == "call" and path_of(x_["f"]) == "Err") for x_ in walk(tail)):
             rep.violation("G3", name, "the empty case is not reported as Error::unreachable_property", f.where())
 
 
@@ -667,29 +725,16 @@ def g6(rep, src):
         floor=2,
         necessary="a missing label makes the compiler report 'unreachable' although a consistent derivation with an acceptable root exists (a public-only query under a DP request); an extra label returns a rewriting whose root is not acceptable",
     )
+    from .util_accept import acceptance, Undecided as _AU
+
     for name, want in ACCEPTABLE.items():
         f = src.one_fn(name=name, file="rewriting/mod.rs")
-        fm = [m for m in find(f.body, "mcall") if m["m"] in ("filter_map", "filter")]
-        if len(fm) != 1 or fm[0]["args"][0]["k"] != "closure":
-            rep.undecidable("G6", name, "expected one filter_map/filter closure over the candidates", f.where())
+        try:
+            acc, _outside, stages = acceptance(f, src)  # the filter / filter_map chain over the candidates evaluated for every root label (util_accept.py)
+        except _AU as u:
+            rep.undecidable("G6", name, "the acceptance filter cannot be evaluated as a function of the root label: %s" % u, f.where())
             continue
-        ms = list(find(fm[0]["args"][0]["body"], "match"))
-        if len(ms) != 1 or "output" not in show(ms[0]["e"], 0):
-            rep.undecidable("G6", name, "the acceptance filter is not one match on rwrr.attributes().output()", f.where())
-            continue
-        arms, default = prop_arms(ms[0])
-        guards = [a for a in ms[0]["arms"] if a.get("guard") is not None]
-        acc = set()
-        for v in PROPS:
-            b = arms.get(v, default)
-            if b is None:
-                continue
-            t = show(b, 0).strip()
-            if t != "None" and not t.startswith("None"):
-                acc.add(v)
-        rep.instance("G6", name, {"entry": name, "accepted": sorted(acc), "expected": sorted(want)})
-        if guards:
-            rep.undecidable("G6", name, "guarded arm in the acceptance filter", f.where())
+        rep.instance("G6", name, {"entry": name, "accepted": sorted(acc), "expected": sorted(want), "stages": stages})
         for v in sorted(want - acc):
             rep.violation("G6", name + ":missing:" + v, "%s refuses root label %s: a request with such a derivation is reported unreachable" % (name, v), f.where())
         for v in sorted(acc - want):
@@ -708,7 +753,11 @@ def g7(rep, src):
     if len(fs) != 1:
         rep.error("G7: expected one Score::visit, found %d" % len(fs))
         return
-    f = fs[0]
+    from .canon import canon_view
+
+    from .canon import accumulate_loop_as_fold
+
+    f = canon_view(accumulate_loop_as_fold(fs[0]), src, helpers=False)  # `let own_score = match ..output() {..}; inputs.fold(own_score, ..)` (or the loop form of that fold) is read through
     folds = [m for m in find(f.body, "mcall") if m["m"] == "fold"]
     if len(folds) != 1 or len(folds[0]["args"]) != 2:
         rep.undecidable("G7", "Score::visit", "not a single fold", f.where())
@@ -716,8 +765,15 @@ def g7(rep, src):
     fold = folds[0]
     recv = show(fold["recv"], 0).replace(" ", "")
     init, cl = fold["args"]
+    if init["k"] == "path" and len(init["segs"]) == 1:
+        li = [l for l in find(f.body, "let") if l["pat"]["k"] in ("ident", "typed") and (l["pat"] if l["pat"]["k"] == "ident" else l["pat"]["pat"]).get("name") == init["segs"][0] and l.get("init") is not None]
+        if len(li) == 1:
+            init = li[0]["init"]
     ok_recv = recv in ("acceptor.inputs().iter()", "acceptor.inputs().into_iter()")
-    body = show(cl["body"], 0).replace(" ", "") if cl["k"] == "closure" else ""
+    cb = cl["body"] if cl["k"] == "closure" else None
+    while cb is not None and cb["k"] == "block" and len(cb["stmts"]) == 1 and cb["stmts"][0]["k"] == "expr":
+        cb = cb["stmts"][0]["e"]
+    body = show(cb, 0).replace(" ", "") if cb is not None else ""
     ps = [p.get("name") for p in cl.get("params", [])] if cl["k"] == "closure" else []
     ok_add = len(ps) == 2 and body in ("%s+dependencies.get(%s.deref())" % (ps[0], ps[1]), "%s+dependencies.get(%s)" % (ps[0], ps[1]), "dependencies.get(%s.deref())+%s" % (ps[1], ps[0]))
     rep.instance("G7", "Score::visit:additive", {"over": recv, "step": body})
